@@ -1028,8 +1028,12 @@ public:
                 if (const auto *CE2 = dyn_cast<ConstantExpr>(SV))
                     SV = CE2->getSubExpr()->IgnoreParenImpCasts();
                 if (const auto *DR = dyn_cast_or_null<DeclRefExpr>(SV))
+                {
                     if (const auto *EC = dyn_cast<EnumConstantDecl>(DR->getDecl()))
                         o["name"] = EC->getQualifiedNameAsString();
+                    else if (const auto *VD = dyn_cast<VarDecl>(DR->getDecl()))
+                        o["cvar"] = VD->getNameAsString();      // case STUN_IPV4: a named integral constant
+                }
             }
             o["ln"] = (int64_t)lineOf(CS->getBeginLoc());
         } else if (isa<DefaultStmt>(L)) {
